@@ -27,7 +27,7 @@ pub fn main(tier: Tier, seed: u64) -> i32 {
     }
     let mut jobs = vec![];
     let mut bases: Vec<(usize, Vec<Vec<polytune_server_core::Policy>>, Vec<Ev>)> = vec![];
-    let xbudget = Budget::new(if tier.is_thorough() { 600.0 } else { 20.0 });
+    let xbudget = Budget::new(if tier.is_thorough() { 1800.0 } else { 20.0 });
     let mut coord_states = 0u64;
     let mut coord_capped = false;
     for (ci, (n, leader, consts, outs)) in cfgs.iter().enumerate() {
@@ -61,7 +61,7 @@ pub fn main(tier: Tier, seed: u64) -> i32 {
         // there, then continue in default order.  n=3 only in the thorough tier.
         if *n == 2 || tier.is_thorough() {
             let space = SrvSpace { n: *n, concurrency: 1, policies: pols.clone(), seed: crate::exec::mix(seed, 1500 + ci as u64), msg_policy: MsgPolicy::Eager };
-            let ex = explore(&space, vec![], &coordination_only, &xbudget, if tier.is_thorough() { 40_000 } else { 3_000 }, true);
+            let ex = explore(&space, vec![], &coordination_only, &xbudget, if tier.is_thorough() { 200_000 } else { 3_000 }, true);
             if ex.capped {
                 coord_capped = true;
             }
